@@ -1,7 +1,7 @@
 /-
 C18 – `ArenaVector<T>`, part 3: the sequence theorem `vec_refines_list`.
 For every list of steps – vector operations interleaved with `env s` steps that replace the arena by ANY state
-with `mallocMax < 2^32` – started from any such arena and the empty vector: the model never reports a write
+(the allocation oracle may grant or refuse anything) – started from any arena and the empty vector: the model never reports a write
 outside the allocation (`none`), `WF` holds after every prefix, an operation answered `.oom` leaves the vector
 unchanged, and `items` equals the textbook list computed by `specStep`.
 -/
@@ -14,89 +14,89 @@ theorem okB_true {e : Err} (h : okB e = true) : e = .ok := by cases e <;> simp_a
 
 /-- one vector operation: never `none`; arena bound, `WF` and the refinement are kept; `ok = false` (the model
 answered `.oom`) leaves the vector unchanged -/
-theorem modelStep_spec {itemSize : Nat} (hi : 0 < itemSize) (hi32 : itemSize < u32) {a : State} {v : Vec}
-    (hm : a.mallocMax < u32) (hw : WF v) (op : VOp) :
-    ∃ a' v' ok, modelStep itemSize a v op = some (a', v', ok) ∧ a'.mallocMax < u32 ∧ WF v' ∧
+theorem modelStep_spec {itemSize : Nat} (hi : 0 < itemSize) (hi32 : itemSize < u32) (a : State) {v : Vec}
+    (hw : WF v) (op : VOp) :
+    ∃ a' v' ok, modelStep itemSize a v op = some (a', v', ok) ∧ WF v' ∧
       (ok = false → v' = v) ∧ items v' = specStep (items v) op ok := by
   have hlen := length_items hw
   -- shared treatment of the three `insert` flavours
   have hins : ∀ index x, index ≤ v.size →
       ∃ a' v' ok, (insert a v index x itemSize).map (fun r => (r.1, r.2.1, okB r.2.2)) = some (a', v', ok) ∧
-        a'.mallocMax < u32 ∧ WF v' ∧ (ok = false → v' = v) ∧
+        WF v' ∧ (ok = false → v' = v) ∧
         items v' = if ok then (items v).take index ++ x :: (items v).drop index else items v := by
     intro index x hidx
-    obtain ⟨a', v', e, heq, mm, wf, hoom, hok⟩ := insert_spec x hw hidx hi hi32 hm
-    refine ⟨a', v', okB e, by rw [heq]; rfl, by omega, wf, fun h => hoom (okB_false h), ?_⟩
+    obtain ⟨a', v', e, heq, mm, wf, hoom, hok⟩ := insert_spec x hw hidx hi hi32
+    refine ⟨a', v', okB e, by rw [heq]; rfl, wf, fun h => hoom (okB_false h), ?_⟩
     cases e with
     | ok => simp only [okB]; exact hok rfl
     | oom => rw [hoom rfl]; simp [okB]
   cases op with
   | append x =>
-    obtain ⟨a', v', ok, heq, mm, wf, hoom, hit⟩ := hins v.size x (Nat.le_refl _)
-    refine ⟨a', v', ok, heq, mm, wf, hoom, ?_⟩
+    obtain ⟨a', v', ok, heq, wf, hoom, hit⟩ := hins v.size x (Nat.le_refl _)
+    refine ⟨a', v', ok, heq, wf, hoom, ?_⟩
     rw [hit]; simp only [specStep]
     rw [← hlen, List.take_length, List.drop_length]
   | prepend x =>
-    obtain ⟨a', v', ok, heq, mm, wf, hoom, hit⟩ := hins 0 x (Nat.zero_le _)
-    refine ⟨a', v', ok, heq, mm, wf, hoom, ?_⟩
+    obtain ⟨a', v', ok, heq, wf, hoom, hit⟩ := hins 0 x (Nat.zero_le _)
+    refine ⟨a', v', ok, heq, wf, hoom, ?_⟩
     rw [hit]; simp only [specStep, List.take_zero, List.drop_zero, List.nil_append]
   | insert i x =>
     simp only [modelStep]
     by_cases hidx : i ≤ v.size
     · rw [if_pos hidx]
-      obtain ⟨a', v', ok, heq, mm, wf, hoom, hit⟩ := hins i x hidx
-      refine ⟨a', v', ok, heq, mm, wf, hoom, ?_⟩
+      obtain ⟨a', v', ok, heq, wf, hoom, hit⟩ := hins i x hidx
+      refine ⟨a', v', ok, heq, wf, hoom, ?_⟩
       rw [hit]; simp only [specStep, hlen, hidx, true_and]
     · rw [if_neg hidx]
-      refine ⟨a, v, true, rfl, hm, hw, nofun, ?_⟩
+      refine ⟨a, v, true, rfl, hw, nofun, ?_⟩
       simp only [specStep, hlen, hidx, false_and, if_false]
   | removeAt i =>
     simp only [modelStep]
     by_cases hidx : i < v.size
     · rw [if_pos hidx]
       obtain ⟨v', heq, wf, hit⟩ := removeAt_spec hw hidx
-      refine ⟨a, v', true, by rw [heq]; rfl, hm, wf, nofun, ?_⟩
+      refine ⟨a, v', true, by rw [heq]; rfl, wf, nofun, ?_⟩
       rw [hit]; simp only [specStep, hlen, hidx, if_true]
     · rw [if_neg hidx]
-      refine ⟨a, v, true, rfl, hm, hw, nofun, ?_⟩
+      refine ⟨a, v, true, rfl, hw, nofun, ?_⟩
       simp only [specStep, hlen, hidx, if_false]
   | pop =>
     simp only [modelStep]
     by_cases h0 : 0 < v.size
     · rw [if_pos h0]
       obtain ⟨wf, hit, _⟩ := pop_spec hw h0
-      exact ⟨a, _, true, rfl, hm, wf, nofun, by rw [hit]; rfl⟩
+      exact ⟨a, _, true, rfl, wf, nofun, by rw [hit]; rfl⟩
     · rw [if_neg h0]
-      refine ⟨a, v, true, rfl, hm, hw, nofun, ?_⟩
+      refine ⟨a, v, true, rfl, hw, nofun, ?_⟩
       have hs : v.size = 0 := by omega
       simp only [specStep, Vector.items, hs, List.take_zero, List.dropLast_nil]
   | clear =>
     obtain ⟨wf, hit⟩ := clear_spec hw
-    exact ⟨a, _, true, rfl, hm, wf, nofun, by rw [hit]; rfl⟩
+    exact ⟨a, _, true, rfl, wf, nofun, by rw [hit]; rfl⟩
   | truncate n =>
     obtain ⟨wf, hit⟩ := truncate_spec hw n
-    exact ⟨a, _, true, rfl, hm, wf, nofun, by rw [hit]; rfl⟩
+    exact ⟨a, _, true, rfl, wf, nofun, by rw [hit]; rfl⟩
   | reserveFit n =>
     simp only [modelStep]
     generalize hr : reserveFitP a v n itemSize = r
     obtain ⟨a1, v1, e1⟩ := r
-    have ok := reserveFitP_spec hr hw hi hi32 hm
-    exact ⟨a1, v1, okB e1, rfl, by rw [ok.mm]; exact hm, ok.wf, fun h => ok.oom (okB_false h), by rw [ok.items]; rfl⟩
+    have ok := reserveFitP_spec hr hw hi hi32
+    exact ⟨a1, v1, okB e1, rfl, ok.wf, fun h => ok.oom (okB_false h), by rw [ok.items]; rfl⟩
   | reserveGrow n =>
     simp only [modelStep]
     generalize hr : reserveGrowP a v n itemSize = r
     obtain ⟨a1, v1, e1⟩ := r
-    have ok := reserveGrowP_spec hr hw hi hi32 hm
-    exact ⟨a1, v1, okB e1, rfl, by rw [ok.mm]; exact hm, ok.wf, fun h => ok.oom (okB_false h), by rw [ok.items]; rfl⟩
+    have ok := reserveGrowP_spec hr hw hi hi32
+    exact ⟨a1, v1, okB e1, rfl, ok.wf, fun h => ok.oom (okB_false h), by rw [ok.items]; rfl⟩
   | resizeFit n =>
-    obtain ⟨a', v', e, heq, mm, wf, hoom, hok⟩ := resize_spec false n hw hi hi32 hm
-    refine ⟨a', v', okB e, by simp only [modelStep]; rw [heq]; rfl, by omega, wf, fun h => hoom (okB_false h), ?_⟩
+    obtain ⟨a', v', e, heq, mm, wf, hoom, hok⟩ := resize_spec false n hw hi hi32
+    refine ⟨a', v', okB e, by simp only [modelStep]; rw [heq]; rfl, wf, fun h => hoom (okB_false h), ?_⟩
     cases e with
     | ok => rw [hok rfl]; simp [specStep, okB, hlen]
     | oom => rw [hoom rfl]; simp [specStep, okB]
   | resizeGrow n =>
-    obtain ⟨a', v', e, heq, mm, wf, hoom, hok⟩ := resize_spec true n hw hi hi32 hm
-    refine ⟨a', v', okB e, by simp only [modelStep]; rw [heq]; rfl, by omega, wf, fun h => hoom (okB_false h), ?_⟩
+    obtain ⟨a', v', e, heq, mm, wf, hoom, hok⟩ := resize_spec true n hw hi hi32
+    refine ⟨a', v', okB e, by simp only [modelStep]; rw [heq]; rfl, wf, fun h => hoom (okB_false h), ?_⟩
     cases e with
     | ok => rw [hok rfl]; simp [specStep, okB, hlen]
     | oom => rw [hoom rfl]; simp [specStep, okB]
@@ -105,28 +105,25 @@ theorem modelStep_spec {itemSize : Nat} (hi : 0 < itemSize) (hi32 : itemSize < u
     generalize hr : release a v itemSize = r
     obtain ⟨a1, v1⟩ := r
     obtain ⟨mm, wf, hit⟩ := release_spec hr hw
-    exact ⟨a1, v1, true, rfl, by omega, wf, nofun, by rw [hit]; rfl⟩
+    exact ⟨a1, v1, true, rfl, wf, nofun, by rw [hit]; rfl⟩
 
-/-- the invariant of the lockstep run: arena oracle bound, `WF` (hence `size ≤ capacity = buf.length`), and
-the refinement `items = textbook list` -/
-def Inv (c : State × Vec × List Nat) : Prop := c.1.mallocMax < u32 ∧ WF c.2.1 ∧ items c.2.1 = c.2.2
+/-- the invariant of the lockstep run: `WF` (hence `size ≤ capacity = buf.length`) and the refinement
+`items = textbook list`; nothing is assumed about the arena -/
+def Inv (c : State × Vec × List Nat) : Prop := WF c.2.1 ∧ items c.2.1 = c.2.2
 
 theorem stepAll_inv {itemSize : Nat} (hi : 0 < itemSize) (hi32 : itemSize < u32) {c : State × Vec × List Nat}
     (hc : Inv c) (st : Step) : ∃ c', stepAll itemSize c st = some c' ∧ Inv c' := by
   obtain ⟨a, v, l⟩ := c
-  obtain ⟨hm, hw, hl⟩ := hc
-  simp only at hm hw hl
+  obtain ⟨hw, hl⟩ := hc
+  simp only at hw hl
   cases st with
   | vec op =>
-    obtain ⟨a', v', ok, heq, mm, wf, _, hit⟩ := modelStep_spec hi hi32 hm hw op
-    refine ⟨(a', v', specStep l op ok), ?_, mm, wf, ?_⟩
+    obtain ⟨a', v', ok, heq, wf, _, hit⟩ := modelStep_spec hi hi32 a hw op
+    refine ⟨(a', v', specStep l op ok), ?_, wf, ?_⟩
     · simp only [stepAll]; rw [heq]; rfl
     · simp only; rw [hit, hl]
   | env s =>
-    simp only [stepAll]
-    split
-    · rename_i hs; exact ⟨_, rfl, hs, hw, hl⟩
-    · exact ⟨_, rfl, hm, hw, hl⟩
+    exact ⟨_, rfl, hw, hl⟩
 
 theorem run_inv {itemSize : Nat} (hi : 0 < itemSize) (hi32 : itemSize < u32) (steps : List Step) :
     ∀ c, Inv c → ∃ c', run itemSize c steps = some c' ∧ Inv c' := by
@@ -149,24 +146,24 @@ theorem run_append (itemSize : Nat) (s1 s2 : List Step) :
     | none => rfl
     | some c' => exact ih c'
 
-/-- **The sequence theorem.**  `0 < itemSize < 2^32`, any start arena with `mallocMax < 2^32`, the empty vector,
+/-- **The sequence theorem.**  `0 < itemSize < 2^32`, any start arena, the empty vector,
 ANY list of steps (vector operations interleaved with arbitrary arena replacements `env s`): the run never
 yields `none`, and at the end (hence, the list being arbitrary, after every prefix – see
 `vec_refines_list_prefix`) the vector is well formed and its items are exactly the textbook list. -/
 theorem vec_refines_list {itemSize : Nat} (hi : 0 < itemSize) (hi32 : itemSize < u32) (steps : List Step)
-    (a0 : State) (h0 : a0.mallocMax < u32) :
-    ∃ a v l, run itemSize (a0, {}, []) steps = some (a, v, l) ∧ a.mallocMax < u32 ∧ WF v ∧ items v = l := by
-  obtain ⟨⟨a, v, l⟩, hrun, hm, hw, hl⟩ := run_inv hi hi32 steps (a0, {}, []) ⟨h0, wf_empty, rfl⟩
-  exact ⟨a, v, l, hrun, hm, hw, hl⟩
+    (a0 : State) :
+    ∃ a v l, run itemSize (a0, {}, []) steps = some (a, v, l) ∧ WF v ∧ items v = l := by
+  obtain ⟨⟨a, v, l⟩, hrun, hw, hl⟩ := run_inv hi hi32 steps (a0, {}, []) ⟨wf_empty, rfl⟩
+  exact ⟨a, v, l, hrun, hw, hl⟩
 
 /-- the same after every prefix, and the full run continues from the state reached by the prefix -/
 theorem vec_refines_list_prefix {itemSize : Nat} (hi : 0 < itemSize) (hi32 : itemSize < u32) (steps : List Step)
-    (a0 : State) (h0 : a0.mallocMax < u32) (k : Nat) :
-    ∃ a v l, run itemSize (a0, {}, []) (steps.take k) = some (a, v, l) ∧ a.mallocMax < u32 ∧ WF v ∧ items v = l ∧
+    (a0 : State) (k : Nat) :
+    ∃ a v l, run itemSize (a0, {}, []) (steps.take k) = some (a, v, l) ∧ WF v ∧ items v = l ∧
       v.size ≤ v.cap ∧ v.buf.length = v.cap ∧
       run itemSize (a0, {}, []) steps = run itemSize (a, v, l) (steps.drop k) := by
-  obtain ⟨a, v, l, hrun, hm, hw, hl⟩ := vec_refines_list hi hi32 (steps.take k) a0 h0
-  refine ⟨a, v, l, hrun, hm, hw, hl, hw.le, hw.len, ?_⟩
+  obtain ⟨a, v, l, hrun, hw, hl⟩ := vec_refines_list hi hi32 (steps.take k) a0
+  refine ⟨a, v, l, hrun, hw, hl, hw.le, hw.len, ?_⟩
   have := run_append itemSize (steps.take k) (steps.drop k) (a0, {}, [])
   rw [List.take_append_drop, hrun] at this
   exact this
@@ -174,16 +171,21 @@ theorem vec_refines_list_prefix {itemSize : Nat} (hi : 0 < itemSize) (hi32 : ite
 /-- at every reachable state, every further vector operation succeeds in the model (`some`), an operation
 answered `.oom` (`ok = false`) leaves the vector unchanged, and the items follow the textbook semantics -/
 theorem vec_refines_list_step {itemSize : Nat} (hi : 0 < itemSize) (hi32 : itemSize < u32) (steps : List Step)
-    (a0 : State) (h0 : a0.mallocMax < u32) (op : VOp) :
+    (a0 : State) (op : VOp) :
     ∃ a v l, run itemSize (a0, {}, []) steps = some (a, v, l) ∧
       ∃ a' v' ok, modelStep itemSize a v op = some (a', v', ok) ∧ WF v' ∧ (ok = false → v' = v) ∧
         items v' = specStep l op ok := by
-  obtain ⟨a, v, l, hrun, hm, hw, hl⟩ := vec_refines_list hi hi32 steps a0 h0
-  obtain ⟨a', v', ok, heq, _, wf, hoom, hit⟩ := modelStep_spec hi hi32 hm hw op
+  obtain ⟨a, v, l, hrun, hw, hl⟩ := vec_refines_list hi hi32 steps a0
+  obtain ⟨a', v', ok, heq, wf, hoom, hit⟩ := modelStep_spec hi hi32 a hw op
   exact ⟨a, v, l, hrun, a', v', ok, heq, wf, hoom, by rw [hit, hl]⟩
 
 example : (run 4 (init 8192 0, {}, []) [.vec (.append 5), .vec (.prepend 3), .env (init 64 0 0), .vec (.append 7),
     .vec (.insert 1 4), .vec (.removeAt 0), .vec (.resizeGrow 4), .vec .pop, .vec (.truncate 2)]).map (·.2.2)
     = some [4, 5] := by decide
+
+/-- the oracle first refuses everything (`mallocMax = 0`: `append` answers `.oom`, list unchanged), then an `env`
+step installs an arena that grants a 4 GiB block: `reserve_grow(0xFFFFFFFE)` succeeds with capacity `0xFFFFFFFF` -/
+example : (run 1 (init 8192 0 0, {}, []) [.vec (.append 1), .env (init 8192 0 (2 ^ 40)),
+    .vec (.reserveGrow 4294967294)]).map (fun c => (c.2.1.cap, c.2.2)) = some (4294967295, []) := by decide
 
 end AsmjitVerif.Vector
